@@ -100,6 +100,14 @@ def has_if(e):
     return any(has_if(c) for c in e)
 
 
+def has_notnot(e):
+    if not isinstance(e, list):
+        return False
+    if len(e) == 2 and e[0] == "not" and isinstance(e[1], list) and e[1] and e[1][0] == "not":
+        return True
+    return any(has_notnot(c) for c in e)
+
+
 def minmax_int_arg(e, loopvars):
     """a min/max one of whose arguments is built from loop counters only"""
     if not isinstance(e, list):
@@ -232,6 +240,8 @@ def features(case):
             f.add("cond_expr")
         if minmax_int_arg(e, all_lv):
             f.add("minmax_int")
+        if has_notnot(e):
+            f.add("notnot")
     for ph in case["phases"]:
         for c in ph["prog"]:
             if c[0] == "if":
@@ -360,7 +370,11 @@ def run_case(case):
         code = build_real(case)
     except Exception as ex:  # noqa: BLE001
         return {"builder_error": "%s: %s" % (type(ex).__name__, str(ex)[:200])}
-    return {"fortran": run_fortran(case, code), "interp": run_interp(case, code)}
+    try:
+        return {"fortran": run_fortran(case, code), "interp": run_interp(case, code)}
+    except Exception as ex:  # noqa: BLE001 - a bug of the harness must not look like a pass
+        import traceback
+        return {"harness_error": "%s: %s" % (type(ex).__name__, ex), "traceback": traceback.format_exc()[-1500:]}
 
 
 # ------------------------------------------------------------------ oracle (independent of the model)
@@ -369,6 +383,8 @@ def oracle(case, res):
     """Decide the property for one case on the two real runs.  None, or a dict naming the failure."""
     if "builder_error" in res:
         return {"kind": "skip", "why": "builder: " + res["builder_error"]}
+    if "harness_error" in res:
+        return {"kind": "harness_error", "error": res["harness_error"], "traceback": res.get("traceback")}
     f, i = res["fortran"], res["interp"]
     if i["end"][0] == "crash":
         return {"kind": "skip", "why": "interpreter raised %s (%s)" % (i["end"][1], i["end"][2])}
@@ -428,6 +444,9 @@ def classify(case, o):
             and "intrinsic" in o["stderr"] and "must be INTEGER" in o["stderr"] \
             and ("min" in o["stderr"] or "max" in o["stderr"]):
         return "minmax_integer_argument"
+    if o["kind"] == "compile_error" and "notnot" in feats and o["stderr"].count("\nError:") == 1 \
+            and "cannot be used as a defined operator" in o["stderr"]:
+        return "double_negation_not_fortran"
     if o["kind"] == "compile_error" and "ne" in feats and o.get("ne_in_code"):
         return "ne_not_fortran"
     if o["kind"] == "state_differs" and "cond_expr" in feats:
@@ -480,7 +499,7 @@ def modelled(case):
 
 def case_term(case, res):
     """Coq term of one case, or None when the case is outside the model's universe"""
-    if not modelled(case) or "builder_error" in res:
+    if not modelled(case) or "builder_error" in res or "harness_error" in res:
         return None
     f, i = res["fortran"], res["interp"]
     if i["end"][0] == "crash" or "gen_error" in f:
@@ -598,7 +617,9 @@ class PGen:
                 return ["var", "<p>f"]
             return ["bin", r.choice(ops), self.num(1, scope), self.num(1, scope)]
         if c < 0.6:
-            return ["not", self.boolean(d - 1, scope)]
+            b = self.boolean(d - 1, scope)
+            # `.not. .not. x` is rejected by gfortran (open finding double_negation_not_fortran)
+            return b[1] if b[0] == "not" else ["not", b]
         if c < 0.85:
             return ["nary", r.choice(["and", "or"]), [self.boolean(d - 1, scope) for _ in range(r.randint(2, 3))]]
         return ["bin", r.choice(ops), self.num(d - 1, scope), self.num(d - 1, scope)]
@@ -1022,7 +1043,9 @@ def main(tier):
             "correspondence compiled Fortran ~ Dagrt.FortranTarget.fcall / NumpyInterpreter ~ Dagrt.FortranTarget.istep"
         rep.violation(detail, no_input=True)
     elif not ps["ok"] or tie_broken:
-        rep.coverage["broken_obligation"] = ps if not ps["ok"] else {"disagreements": len(mism)}
+        rep.coverage["broken_obligation"] = ps if not ps["ok"] else {
+            "disagreements": len(mism), "coq_errors": errors[:2],
+            "first_disagreeing_case": strip(cases[mism[0]]) if mism else None}
 
     feat_hist = {}
     for c in cases:
